@@ -90,7 +90,7 @@ func (en *engSet) answer(q Q) (snap string, objs []any) {
 		sb.WriteString("DNS " + snapDNS(res, ok))
 		c := en.e.GetCosmeticResult(q.Hostname, rules.CosmeticOptionAll)
 		fmt.Fprintf(&sb, " cosmetic=%q/%q", sortedList(c.ElementHiding.Generic), sortedList(c.ElementHiding.Specific))
-		return sb.String(), []any{res}
+		return sb.String(), []any{res, &c}
 	}
 	req := mkReq(q)
 	fmt.Fprintf(&sb, "WEB all=%q ", sortedList(netTexts(en.n.MatchAll(req))))
@@ -142,7 +142,8 @@ func genMixedLists(t *rapid.T, fileChance int) (lists []ListSpec, models []NetMo
 			lines = append(lines, pick(t, "hip", []string{"0.0.0.0", "::1", "10.0.0.1"})+" "+pick(t, "hname", names))
 		case 1:
 			lines = append(lines, pick(t, "cosm", []string{"example.org##.a", "~a.com##.b", "example.*##.c", "example.org#@#.a", "##.generic",
-				"sub.example.org#@#.a", "example.org##.z", "example.org,a.com##.y", "sub.example.org#@#.c", "a.com#@#.y"}))
+				"sub.example.org#@#.a", "example.org##.z", "example.org,a.com##.y", "sub.example.org#@#.c", "a.com#@#.y",
+				"##.g2", "##.g3", "~example.org##.n1", "~sub.example.org##.n2", "~a.com,~google.com##.n3", "a.com#@#.g2"}))
 		case 2:
 			lines = append(lines, "||example.org^$dnsrewrite="+pick(t, "rw", []string{"1.2.3.4", "NXDOMAIN", "NOERROR;MX;10 m.x", "x.com", "NOERROR;A;4.3.2.1"})+pick(t, "rwimp", []string{"", ",important"}))
 		case 3:
@@ -194,6 +195,16 @@ func genMixedLists(t *rapid.T, fileChance int) (lists []ListSpec, models []NetMo
 	}
 	if chance(t, "shared-host-lines", 2) {
 		lines = append(lines, "0.0.0.0 shared.example alias1.example", "10.0.0.1 shared.example alias2.example", "::1 alias3.example shared.example")
+	}
+	if chance(t, "regex-block", 2) {
+		lines = append(lines, "/ads[0-9]?/", "/banner_?ad/", "/exampl[e]\\.org/", "/goog+le/", "/x\\.js$/$script", "/^https?:\\/\\/a\\.com/", "@@/adsa[0-9]/",
+			// regex rules with their own long shortcuts: different URLs reach different ones first
+			"/bannerx[0-9]/", "/adsgpq\\d/", "/trackerz+/", "/pixelw[a-z]{2}/", "@@/counterv\\d+/")
+		// regex rules whose text is new in this process (a process-wide cache keyed by text has not seen them)
+		k := rapid.IntRange(0, 1<<30).Draw(t, "fresh-regex-id")
+		for _, c := range "abcd" {
+			lines = append(lines, fmt.Sprintf("/uniq%d%c[0-9]/", k, c))
+		}
 	}
 	if chance(t, "bucket-sharing-block", 2) {
 		// several rules in one shortcut bucket, and rules in other buckets that the same URLs reach later
